@@ -134,7 +134,10 @@ def run(tier):
         rep.violation("format-%s" % e["e"], "%s: on-disk record rejected by the format rules: %s" % (label, json.dumps(e)[:300]),
                       data={"case": label, "event": e})
     # ---- binding demonstration / anti-vacuity: corrupted event logs must be rejected -------------------------
-    base_label, base_events = max(items, key=lambda it: len(it[1]) if len(it[1]) < 3000 else 0)
+    # corrupt, per rule, the smallest real log that contains the record kind the rule is about
+    def base_for(kind):
+        c = [it for it in items if any(e["e"] == kind for e in it[1])]
+        return min(c, key=lambda it: len(it[1]))[1] if c else None
     muts = {"MetaBlockLargerThanContent": ("MetaBlock", lambda e: e.update(stored=e["usize"] + 1, compressed=True)),
             "CompressedNotSmaller": ("DataBlock", lambda e: e.update(compressed=True, stored=e["usize"], sparse=False, expands_ok=True)),
             "ListingNotSorted": ("DirEnt", lambda e: e.update(gt_prev=False)),
@@ -148,9 +151,10 @@ def run(tier):
             "BasicInodeForLargeFile": ("Inode", lambda e: e.update(needs_ext=True, ext=False) if e["type"] == "file" else e.update(num=0))}
     mut_items = []
     for name, (kind, f) in muts.items():
-        evs = copy.deepcopy(base_events)
+        evs = copy.deepcopy(base_for(kind) or [])
         cands = [x for x in evs if x["e"] == kind]
         if not cands:
+            devres["corrupted-log:" + name] = False
             continue
         f(cands[len(cands) // 2])
         mut_items.append((name, evs))
